@@ -90,6 +90,8 @@ class CellEval:
             return -self.eval(node.operand)
         if isinstance(node, ast.UnaryOp) and isinstance(node.op, ast.UAdd):
             return self.eval(node.operand)
+        if isinstance(node, ast.IfExp):
+            return self.eval(node.body) if self.test(node.test) else self.eval(node.orelse)
         if isinstance(node, ast.BinOp):
             a, b = self.eval(node.left), self.eval(node.right)
             if isinstance(node.op, ast.Add):
